@@ -60,6 +60,8 @@ PID_SETS = {
     # identifiers that are falsy: they are identifiers all the same
     'intzero': [0, 1, 10, 2],
     'strempty': ['', 'a', 'ab', 'b'],
+    # the pid that was never saved is too long for a file name: asking for it, or deleting it, is still just a miss
+    'strlong': ['p1', 'p2', 'p3', 'x' * 300],
 }
 
 
@@ -122,7 +124,7 @@ def _cases(draw, tier):
             ops.append([kind, p])
         else:
             ops.append([kind])
-    case = {'pid_kind': draw(st.sampled_from(['int', 'int', 'str', 'uuid', 'strodd', 'intprefix', 'intzero', 'strempty'])), 'tag_kind': tag_kind, 'ops': ops}
+    case = {'pid_kind': draw(st.sampled_from(['int', 'int', 'str', 'uuid', 'strodd', 'intprefix', 'intzero', 'strempty', 'strlong'])), 'tag_kind': tag_kind, 'ops': ops}
     if draw(st.integers(0, 2)) == 0:
         case['dirname'] = draw(st.sampled_from(DIRNAMES))
     case['two_handles'] = draw(st.booleans())
